@@ -67,6 +67,34 @@ CHECKS = {
             'logged and counted); (3) the same command under generated hash seeds chosen so that set iteration orders differ. '
             'pairwise_ranks.tsv rows must be identical across all runs of an input.',
             'Real interleavings are sampled, not enumerated; tie order inside the output file is not constrained.', 'DESIGN.md §3 C09'),
+    'C17': ('exhaustive {0,1} score tables over <=4 features + Hypothesis dictionaries: validity predicate (greedy optimality under ties)',
+            'Exploration: every {0,1} assignment of relevance / redundancy / relation over <=4 features (x strategies x alpha,beta) is '
+            'enumerated and Hypothesis adds 1-30 features with ties, negatives, sparse symmetric-or-absent pair dictionaries; the output '
+            'must be a permutation with ranks 1..n, start at maximal relevance, and at every position the chosen feature must maximise '
+            'the recomputed importance (up to 1e-9 scale) - many outputs are valid under ties, none is prescribed.',
+            'Pair dictionaries are symmetric-or-absent (as the statement is silent on lookup orientation). The pipeline clause on 3mr_ranks.tsv is not built.',
+            'DESIGN.md §3 C17'),
+    'C18': ('Hypothesis triplet tables with adversarial names written to pairwise_ranks.tsv: recomputation oracle on both summary files',
+            'Exploration: generated tables (annotated/plain names, names containing AND, interaction names, duplicated orientations, '
+            'label-label rows, distractors, negative scores/ties, heuristics with/without MI, orders 1-3) are summarised by the real task; '
+            'feature_singles.tsv and feature_singles_aggregated.tsv are recomputed independently (median, descending order, min-max '
+            'normalisation for MI names, per-constituent medians over " AND " features only).',
+            'Names for which the name-(...) convention is inherently ambiguous and MI tables with max==min (0/0) are excluded and counted.',
+            'DESIGN.md §3 C18'),
+    'C19': ('Hypothesis parameter/structure generation by construction: domain / position / representation predicates + seed replay',
+            'Exploration: generated (n_features, n_samples, cardinality, low, high, k, seed, ensure_rep, random_values) and structure '
+            'descriptions mixing index / index-list entries with cardinalities, value lists and value/frequency pairs, sample counts '
+            'straddling each domain size; predicates: shape and int32, per-feature value set inside the declared domain, structure '
+            'features at their declared positions, ensure_rep => every value present when n >= |domain|, same arguments => same array; '
+            'naive generator and the data_generator task (label is a function of the needle column, CSV shape).',
+            'Inputs restricted to what the generators document/accept (e.g. >=31 features for the naive generator).', 'DESIGN.md §3 C19'),
+    'C20': ('Hypothesis on generated data sets: per-operation predicates (correlation value, copies, self-description, quantile cuts, noise budgets, down-sampling)',
+            'Exploration: separate clauses for generate_correlated (Pearson = r within 1e-6 for non-constant sources), duplicates, '
+            'combinations, dataset_info programs, quantile labels (monotone step function, tie-free cumulative counts, float/list/ndarray '
+            'distributions), categorical / missing noise (per-feature budget floor(p*n), own value set, input untouched) and class-balanced '
+            'down-sampling (exactly n rows per class drawn from that class, n > min count raises).',
+            'Classes with a single row are not generated for categorical noise (observed ValueError, outside the statement); k-means labels: shape/range only.',
+            'DESIGN.md §3 C20'),
 }
 
 NOT_YET = 'check not built yet in this commit (work in progress; planned in DESIGN.md §3)'
